@@ -10,7 +10,7 @@ os.makedirs(dst, exist_ok=True)
 shutil.copyfile(src + '/patch.diff', dst + '/patch.diff')
 shutil.copyfile(src + '/seed_demo.rs', dst + '/seed_demo.rs')
 meta = json.load(open(src + '/meta.json'))
-ver = [l for l in open('/tmp/seed/verify.log') if l.startswith(c + ' ')]
+ver = [l for l in open(__import__('os').environ.get('VERIFY_LOG', '/tmp/seed/verify.log')) if l.startswith(c + ' ')]
 meta['verified_by_me'] = ver[-1].strip() if ver else 'not verified'
 out = subprocess.run(['/verif/tools/try_patch.sh', dst + '/patch.diff'], stdout=subprocess.PIPE).stdout.decode('utf-8', 'replace')
 det = {}
